@@ -1,4 +1,5 @@
 import WebrtcVerif.Base.Wire
+import WebrtcVerif.Drv.C24
 import WebrtcVerif.Drv.C26
 import WebrtcVerif.Drv.C15
 import WebrtcVerif.Drv.C32
@@ -44,6 +45,7 @@ def runLine (toks : List String) : String :=
   | "C32" :: rest => Drv.C32.run rest
   | "C15" :: rest => Drv.C15.run rest
   | "C26" :: rest => Drv.C26.run rest
+  | "C24" :: rest => Drv.C24.run rest
   | _ => "bad-op"
 
 def judgeLine (toks : List String) : String :=
@@ -68,6 +70,7 @@ def judgeLine (toks : List String) : String :=
   | "C32" :: rest => Drv.C32.judge rest out
   | "C15" :: rest => Drv.C15.judge rest out
   | "C26" :: rest => Drv.C26.judge rest out
+  | "C24" :: rest => Drv.C24.judge rest out
   | _ => "bad-judge"
 
 partial def loop (h : IO.FS.Stream) (out : IO.FS.Stream) (f : List String → String) : IO Unit := do
